@@ -72,7 +72,8 @@ def state_view(name, d):
     pop = d.population
     return {'num_trials_seen': d._num_trials_seen, 'phase': 'mutation' if d._num_trials_seen >= d._first_survival_after else 'sampling',
             'population_size': len(pop), 'population_ys': np.asarray(pop.ys).round(9).tolist() if len(pop) else [],
-            'population_ids': sorted(np.asarray(pop.trial_ids).tolist()) if len(pop) else []}
+            'population_ids': sorted(np.asarray(pop.trial_ids).tolist()) if len(pop) else [],
+            'population_ages': sorted(zip(np.asarray(pop.trial_ids).tolist(), np.asarray(pop.ages).tolist())) if len(pop) else []}
   if name == 'cmaes':
     return {'queued_trials': sorted(t.id for t in list(d._trial_population.queue)), 'dump': repr(sorted((str(ns), k, v[:60]) for ns in d.dump().namespaces() for k, v in d.dump().abs_ns(ns).items()))[:4000]}
   return {}
@@ -87,6 +88,7 @@ def run_sequence(name, mk, mode, prob, seed, batches, restarts, order='in', ctor
   tid = 0
   out = []
   pending = []
+  held = []
   md = None
   load_diffs = []
   for step, b in enumerate(batches):
@@ -97,8 +99,12 @@ def run_sequence(name, mk, mode, prob, seed, batches, restarts, order='in', ctor
       after = state_view(name, d)
       if before != after:
         load_diffs.append((step, {k: (before[k], after.get(k)) for k in before if before[k] != after.get(k)}))
-    # completions may reach the designer in any order
-    fed = list(reversed(pending)) if order == 'reversed' else pending
+    # completions may reach the designer in any order, and some updates carry no completed trial at all
+    if order == 'bursty':
+      held = held + pending
+      fed, held = (held, []) if step % 2 == 0 else ([], held)
+    else:
+      fed = list(reversed(pending)) if order == 'reversed' else pending
     d.update(vza.CompletedTrials(fed), vza.ActiveTrials([]))
     sugg = list(d.suggest(b))
     out.append([s.parameters.as_dict() for s in sugg])
@@ -125,13 +131,15 @@ def shard(task):
       plans = []
       for L in range(1, task['maxlen'] + 1):
         for batches in itertools.product((1, 2, 3), repeat=L):
-          for order in ('in', 'reversed'):
+          for order in ('in', 'reversed', 'bursty'):
             if order == 'reversed' and max(batches[:-1] or (1,)) == 1:
               continue   # nothing to reorder
+            if order == 'bursty' and L < 3:
+              continue   # completions held back for one step need three steps to matter
             plans.append((batches, order, [c for r in range(1, L + 1) for c in itertools.combinations(range(1, L), r)]))
       for batches in task.get('long', []):
         L = len(batches)
-        for order in ('in', 'reversed'):
+        for order in ('in', 'reversed', 'bursty'):
           plans.append((tuple(batches), order, [(k,) for k in range(1, L)] + [tuple(range(1, L)), tuple(range(1, L, 2))]))
       for batches, order, restart_sets in plans:
           L = len(batches)
